@@ -543,10 +543,6 @@ impl Direct {
         f()
     }
 
-    pub fn advance(&mut self, d: Duration) {
-        self.now += d;
-    }
-
     pub fn observe(&self, path: &str) -> Obs {
         self.entered(|| observe_entered(path))
     }
@@ -628,7 +624,6 @@ impl Direct {
         };
         // phase 1: open, ring, push, submit
         let mut rbuf: Vec<u8> = vec![];
-        let wbuf: Vec<u8>;
         let phase1 = self.entered(|| -> Result<(sfs::File, IoUring), Ret> {
             let f = std_opts(&Flags::parse(fl))
                 .open(p)
@@ -676,10 +671,7 @@ impl Direct {
             drop(f);
             got
         });
-        if let K::Write(_, d) = k {
-            wbuf = d;
-            drop(wbuf);
-        }
+        drop(k);
         if out.len() != 1 || out[0].0 != ud {
             return Ret::Err(Errc::Other(format!(
                 "uring: expected exactly one CQE for ud {ud}, got {out:?}"
